@@ -305,7 +305,7 @@ Proof.
   rewrite (bind_eq _ _ s (if check_only then [] else out) s1).
   2:{ rewrite (bind_eq _ _ s (if check_only then [] else out) s1).
       - rewrite (bind_eq _ _ s1 [] s1 eq_refl). unfold ret. now rewrite app_nil_r.
-      - rewrite (bind_eq _ _ s s s eq_refl). cbn [smem existsb]. rewrite (R_gates _ _ R). exact Eb. }
+      - rewrite (bind_eq _ _ s s s eq_refl). cbn [smem existsb]. rewrite (R_gates _ _ R name np 1%nat Hn). exact Eb. }
   exists s1. split; [unfold emit, ret; destruct check_only; reflexivity|]. split; assumption.
 Qed.
 End BGate.
@@ -438,7 +438,7 @@ Proof.
                                Dstep s s1 ev1 /\ forall r0, wf_flat env (out ++ r0) = wf_flat env' r0).
     { unfold ptop_step in Es. destruct (loop_ok env stm) as [out'|] eqn:El.
       - injection Es as <- <- <-. destruct fuel as [|[|f]]; try lia.
-        destruct (loop_fix f env s stm out' T El) as (s1 & E1 & T1 & Nq & Nc & S1).
+        destruct (loop_fix f env s stm out' T El) as (s1 & E1 & T1 & Nq & Nc & S1 & _).
         pose proof (loop_ok_ops env stm out' El) as Ops. destruct (total_ops env out' Ops) as [Tq Tc].
         exists s1. split; [exact E1|]. split; [exact T1|]. split; [lia|]. split; [lia|]. split; [exact S1|].
         intros r0. now apply wf_flat_ops.
